@@ -8,7 +8,7 @@
 (*   [VC]  XPath 2.0 / 3.1 section 3.5.1 (3.7.1)  Value Comparisons        *)
 (*   [GC]  XPath 2.0 / 3.1 section 3.5.2 (3.7.2)  General Comparisons      *)
 (*   [B2]  XPath 2.0 / 3.1 appendix B.2  Operator Mapping                  *)
-(*   [Db1]  appendix B.1 Type Promotion (numeric; xs:anyURI -> xs:string)   *)
+(*   [B1]  appendix B.1 Type Promotion (numeric; xs:anyURI -> xs:string)   *)
 (*   [EO]  section 2.3.4  Errors and Optimization                          *)
 (*   [X1]  XPath 1.0 section 3.4 Booleans (cross-checked against libxml2)  *)
 (*                                                                         *)
@@ -27,6 +27,8 @@
 (*  - the implicit timezone: all date/time values are without timezone;    *)
 (*  - xs:decimal / xs:float values off the dyadic grid n/2^24 (rounding of *)
 (*    the promotion to xs:float / xs:double);                              *)
+(*  - xs:untypedAtomic against xs:QName on XPath 2.0 processors (the cast  *)
+(*    is "N" in F&O 2.0, "Y" since 3.0): outcome "UNSPEC", vector skipped; *)
 (*  - static typing.                                                       *)
 (***************************************************************************)
 EXTENDS EBV
@@ -50,7 +52,7 @@ LexOrd(s, u) ==      \* lexicographic order of two integer sequences: "lt" | "eq
   ELSE IF s[1] > u[1] THEN "gt"
   ELSE LexOrd(Tail(s), Tail(u))
 
-(* op:numeric-equal / op:numeric-less-than (F&O 6.3): after promotion [Db1] the values are compared
+(* op:numeric-equal / op:numeric-less-than (F&O 6.3): after promotion [B1] the values are compared
    as numbers; positive and negative zero are equal; NaN is unordered ("un"): NaN eq NaN is false *)
 NumKey(v) == IF v.k = "ninf" THEN <<0, 0>> ELSE IF v.k = "pinf" THEN <<2, 0>> ELSE <<1, v.n>>
 NumOrd(a, b) == IF IsNaN(a) \/ IsNaN(b) THEN "un" ELSE LexOrd(NumKey(a), NumKey(b))
@@ -63,7 +65,7 @@ EqOnly(b) == IF b THEN "eqq" ELSE "neq"     \* equality is defined, order is not
    Result: "lt" "eq" "gt" | "un" (NaN) | "eqq" "neq" (eq/ne defined only) | "err" (no entry: XPTY0004) *)
 Ord(a, b, c) ==
   IF IsNumT(a.t) /\ IsNumT(b.t) THEN NumOrd(a, b)
-  ELSE IF a.t \in {"str", "uri"} /\ b.t \in {"str", "uri"} THEN LexOrd(a.s, b.s)  \* fn:compare, code points; anyURI promoted [Db1]
+  ELSE IF a.t \in {"str", "uri"} /\ b.t \in {"str", "uri"} THEN LexOrd(a.s, b.s)  \* fn:compare, code points; anyURI promoted [B1]
   ELSE IF a.t = "bool" /\ b.t = "bool" THEN LexOrd(<<B2I(a.b)>>, <<B2I(b.b)>>)   \* op:boolean-less-than: false < true
   ELSE IF a.t = b.t /\ a.t \in {"date", "dt", "time"} THEN LexOrd(a.f, b.f)
   ELSE IF IsDurT(a.t) /\ IsDurT(b.t)
